@@ -364,6 +364,13 @@ func runHostile(rc *core.RunCtx) {
 	if dialing {
 		infra = append(infra, "stream/"+addrOf(3), "stream/"+addrOf(3))
 	}
+	// in some runs node 2 asks a service on the hostile peer's own address; the
+	// peer learns the temporary response PID from the request's sender table and
+	// floods it with replies over several connections, before, while and after
+	// the requester collects the result
+	if g.Bool(0.3) {
+		floodReplies(w, g.Range(2, 5), g.Range(1, 3), time.Duration(g.IntN(3))*5*time.Millisecond)
+	}
 	mode := g.IntN(3) // 0 structural, 1 byte mutation, 2 corrupting network on a legitimate stream
 	var sent []hostileMsg
 	bad := map[string]int32{"neg": -1, "len": 0, "max": 1<<31 - 1}
@@ -536,6 +543,71 @@ func runHostile(rc *core.RunCtx) {
 	}
 	rc.Scen("mode=%s envelopes=%d hostile messages=%d", [...]string{"structural", "byte-mutation", "corrupting-network"}[mode], nenv, len(sent))
 	rc.Nontrivial = len(sent) > 0 || mode == 2
+}
+
+// floodReplies starts a hostile server at node 9's address and a requester on
+// node 2 that asks it something. The server reads the response PID out of the
+// request's sender table and sends nreplies replies to it over nconns fresh
+// connections to node 2.
+func floodReplies(w *World, nreplies, nconns int, stall time.Duration) {
+	var learned *actor.PID
+	w.rc.Scen("reply flood: %d replies over %d connections, requester stalls %v before Result()", nreplies, nconns, stall)
+	simrt.GoNode(9, "hostile-server", func() {
+		l, err := simnet.Listen("tcp", addrOf(9))
+		if err != nil {
+			return
+		}
+		c, err := l.Accept()
+		if err != nil {
+			return
+		}
+		sc := c.(*simnet.SimConn)
+		for learned == nil {
+			f, err := sc.RecvFrame()
+			if err != nil {
+				return
+			}
+			if len(f) < 2 || f[0] != wire.KMessage {
+				continue
+			}
+			env := &hremote.Envelope{}
+			if env.UnmarshalVT(f[1:]) != nil {
+				continue
+			}
+			for _, m := range env.Messages {
+				if m.SenderIndex >= 0 && int(m.SenderIndex) < len(env.Senders) && strings.HasPrefix(env.Senders[m.SenderIndex].ID, "response/") {
+					learned = env.Senders[m.SenderIndex]
+				}
+			}
+		}
+		simrt.Fault("reply-flood")
+		var conns []*simnet.SimConn
+		for i := 0; i < nconns; i++ {
+			hc, err := simnet.DialSim(addrOf(2))
+			if err != nil {
+				return
+			}
+			hc.SendFrame(wire.Frame(wire.KInvoke, []byte("/remote.Remote/Receive")))
+			conns = append(conns, hc)
+		}
+		for i := 0; i < nreplies; i++ {
+			data, _ := (&hremote.TestMessage{Data: []byte(fmt.Sprintf("flood%d", i))}).MarshalVT()
+			env := &hremote.Envelope{TypeNames: []string{"remote.TestMessage"}, Targets: []*actor.PID{learned}, Messages: []*hremote.Message{{Data: data}}}
+			raw, _ := env.MarshalVT()
+			if conns[i%nconns].SendFrame(wire.Frame(wire.KMessage, raw)) != nil {
+				return
+			}
+			simrt.Yield(simrt.OpUser)
+		}
+	})
+	simrt.GoNode(2, "asker", func() {
+		resp := w.nodes[2].E.Request(actor.NewPID(addrOf(9), "svc/x"), mkPayload(0, "ask"), 50*time.Millisecond)
+		if stall > 0 {
+			simrt.Sleep(stall)
+		}
+		v, err := resp.Result()
+		simrt.Ev("asker: %v %v", v, err)
+	})
 }
 
 func lastSeg(s string) string {
